@@ -250,6 +250,14 @@ for tname, tsch, d0, d1 in [('bool', {'type': 'boolean'}, False, True), ('int', 
         case(gname, {'G': g}, 'G', 'struct')
         case(gname + '_b', {'G': g}, 'G', 'struct', settings={'builder': True})
 
+# optional / nullable compound members (tuples, arrays) without defaults
+case('optcomp', {'Record': {'type': 'object', 'required': ['id'],
+                            'properties': {'id': {'type': 'integer', 'format': 'uint8'},
+                                           'span': {'type': 'array', 'items': [{'type': 'integer'}, {'type': 'string'}], 'minItems': 2, 'maxItems': 2},
+                                           'tags': {'type': ['array', 'null'], 'items': {'type': 'string'}},
+                                           'list': {'type': 'array', 'items': {'type': 'integer', 'format': 'uint8'}},
+                                           'pair': {'oneOf': [{'type': 'array', 'items': [{'type': 'boolean'}, {'type': 'integer', 'minimum': 10, 'maximum': 20}], 'minItems': 2, 'maxItems': 2},
+                                                              {'type': 'null'}]}}}}, 'Record', 'struct')
 WIDGET = {'title': 'Widget', 'type': 'object', 'required': ['id', 'display-name', 'type'],
           'properties': {'id': {'type': 'integer', 'format': 'uint32'}, 'display-name': {'type': 'string'},
                          'type': {'type': ['string', 'null']}, 'enabled': {'type': 'boolean', 'default': True},
